@@ -227,8 +227,9 @@ func (ch *CloudHandler) prepareMetricQueue(source gostatsd.Source) *gostatsd.Met
 	}
 	if len(ch.awaitingEvents[source]) == 0 {
 		ch.toLookupIPs = append(ch.toLookupIPs, source)
-		ch.statsMetricHostsQueued++
 	}
+	// The host now waits for metrics whoever requested the lookup; handleInstanceInfo decrements on release.
+	ch.statsMetricHostsQueued++
 	queue := gostatsd.NewMetricMap(false)
 	ch.awaitingMetrics[source] = queue
 	return queue
@@ -252,9 +253,13 @@ func (ch *CloudHandler) handleIncomingMetrics(mm *gostatsd.MetricMap) {
 func (ch *CloudHandler) handleIncomingEvent(e *gostatsd.Event) {
 	queue := ch.awaitingEvents[e.Source]
 	ch.awaitingEvents[e.Source] = append(queue, e)
-	if len(queue) == 0 && ch.awaitingMetrics[e.Source] == nil {
-		// This is the first event for that IP in the queue. Need to fetch an Instance for this IP.
-		ch.toLookupIPs = append(ch.toLookupIPs, e.Source)
+	if len(queue) == 0 {
+		// This is the first event for that IP in the queue.
+		if ch.awaitingMetrics[e.Source] == nil {
+			// Need to fetch an Instance for this IP.
+			ch.toLookupIPs = append(ch.toLookupIPs, e.Source)
+		}
+		// The host now waits for events whoever requested the lookup; handleInstanceInfo decrements on release.
 		ch.statsEventHostsQueued++
 	}
 	ch.statsEventItemsQueued++
